@@ -302,3 +302,117 @@ Definition are_tiled_full_code (ps : list (Z * Z)) (th tw : Z) : bool :=
   let e := expected_positions max_r max_c th tw in
   if negb (Nat.eqb (List.length e) (List.length ps)) then false else zip_all_eq e ps.
 Definition run_tiled_full_code ps th tw : val := VB (are_tiled_full_code ps th tw).
+
+(* ======================================================================
+   Extension 2: the whole integer domain of the size arguments, error
+   propagation into the per-frame generator, the single-tile helper driven
+   over the whole enumeration, per-frame data fed to the full-tiling test.
+   ====================================================================== *)
+
+(* spatial.compute_tile_positions_per_frame for ALL integer sizes: after the
+   length checks, `// columns`, `// rows` (ZeroDivisionError) and the
+   transformer's spacing check (ValueError), an EMPTY meshgrid (a tile count
+   <= 0: matrix size <= 0, or a negative tile size with a matrix size > 1) is
+   a float array, which PixelToReferenceTransformer.__call__ refuses with
+   TypeError.  A negative tile size with matrix size 1 gives one tile. *)
+Definition tile_positions_dom (npos nori nsp : Z) (R C th tw : Z) (pos rowcos colcos : vec3)
+           (spr spc : Q) : res (list ((Z * Z) * vec3)) :=
+  if negb (npos =? 3) then Err "ValueError"
+  else if negb (nori =? 6) then Err "ValueError"
+  else if negb (nsp =? 2) then Err "ValueError"
+  else if (tw =? 0) || (th =? 0) then Err "ZeroDivisionError"
+  else if bad_spacing spr spc then Err "ValueError"
+  else if (tiles_per_column C tw <=? 0) || (tiles_per_row R th <=? 0) then Err "TypeError"
+  else Ok (tile_positions R C th tw pos rowcos colcos spr spc).
+
+(* spatial.iter_tiled_full_frame_data consumed to the end: the errors of
+   compute_tile_positions_per_frame surface iff the channel x focal-plane
+   loop body runs at least once *)
+Definition iter_tiled_full_ds_chk (d : tf_dataset) : res (list (option Z * Z * (Z * Z) * vec3)) :=
+  bind (iter_tiled_full_ds d) (fun l =>
+    match ds_channels d with
+    | [] => Ok l
+    | _ :: _ =>
+        if opt_default 1 (ds_nfp d) <=? 0 then Ok l
+        else bind (tile_positions_dom 3 6 2 (ds_R d) (ds_C d) (ds_th d) (ds_tw d)
+                     (V3 (ds_x d) (ds_y d) 0) (ds_rc d) (ds_cc d) (ds_spr d) (ds_spc d))
+                  (fun _ => Ok l)
+    end).
+
+(* utils.compute_plane_position_tiled_full called for every (column, row)
+   index pair of spatial.tile_pixel_matrix, in that order *)
+Definition helper_positions (R C th tw : Z) (x y : Q) (rowcos colcos : vec3) (spr spc : Q)
+           (slice : option (Z * Q)) : list (res ((Z * Z) * vec3)) :=
+  map (fun t => plane_position_tiled_full (snd t) (fst t) x y th tw rowcos colcos spr spc slice)
+      (tile_pixel_matrix R C th tw).
+
+(* (row position, column position) of a plane position, as read by
+   utils.are_plane_positions_tiled_full *)
+Definition rc_of (t : (Z * Z) * vec3) : Z * Z := (snd (fst t), fst (fst t)).
+Definition oks {A} (l : list (res A)) : list A :=
+  flat_map (fun r => match r with Ok a => [a] | Err _ => [] end) l.
+
+(* are_plane_positions_tiled_full(compute_plane_position_slide_per_frame(ds),
+   ds.Rows, ds.Columns) *)
+Definition pf_tiled_full (d : tf_dataset) : res bool :=
+  bind (slide_per_frame d) (fun l => Ok (are_tiled_full_code (map rc_of l) (ds_th d) (ds_tw d))).
+
+(* spatial.get_tile_array for ALL integer tile sizes: the end of a numpy
+   slice that is negative counts from the end of the axis *)
+Definition py_end (e n : Z) : Z := if e <? 0 then Z.max (e + n) 0 else Z.min e n.
+Definition get_tile_array_py (M : list (list Z)) (R C : Z) (ro co th tw : Z) (pad : bool)
+  : res (list (list Z)) :=
+  if (ro <? 1) || (R <? ro) then Err "ValueError"
+  else if (co <? 1) || (C <? co) then Err "ValueError"
+  else
+    let ro0 := ro - 1 in let co0 := co - 1 in
+    let rend := Z.min (ro0 + th) R in let cend := Z.min (co0 + tw) C in
+    let pad_rows := Z.max (ro0 + th - R) 0 in
+    let pad_cols := Z.max (co0 + tw - C) 0 in
+    let t := map (slice_list co0 (py_end cend C)) (slice_list ro0 (py_end rend R) M) in
+    if pad then
+      Ok (pad_right (repeat 0 (Z.to_nat (Z.max (py_end cend C - co0) 0 + pad_cols))) pad_rows
+                    (map (pad_right 0 pad_cols) t))
+    else Ok t.
+
+(* spatial.is_tiled_image: the three attributes are present *)
+Definition is_tiled_image (has_tpm_rows has_tpm_columns has_number_of_frames : bool) : bool :=
+  has_tpm_rows && has_tpm_columns && has_number_of_frames.
+
+(* every tile of an R x C x S array, in the order of compute_tile_positions_per_frame *)
+Definition cut_all_nd (S : Z) (M : list (list (list Z))) (R C th tw : Z) (pad : bool)
+  : list ((Z * Z) * res (list (list (list Z)))) :=
+  map (fun o => (o, get_tile_array_nd S M R C (snd o) (fst o) th tw pad)) (tile_offsets R C th tw).
+
+(* ---- boundary functions of extension 2 ---------------------------------- *)
+Definition run_positions_dom npos nori nsp R C th tw pos rc cc spr spc : val :=
+  vres vpos_list (tile_positions_dom npos nori nsp R C th tw pos rc cc spr spc).
+Definition run_iter_ds_chk (d : tf_dataset) : val :=
+  vres (fun l => VL (map (fun t => match t with (ch, k, o, p) =>
+          VL [vopt VZ ch; VZ k; VZ (fst o); VZ (snd o); vvec p] end) l))
+       (iter_tiled_full_ds_chk d).
+Definition run_helper_positions R C th tw x y rc cc spr spc sl : val :=
+  let l := helper_positions R C th tw x y rc cc spr spc sl in
+  VL [VL (map (vres (fun t => VL [vpairz (fst t); vvec (snd t)])) l);
+      VB (are_tiled_full_code (map rc_of (oks l)) th tw)].
+Definition run_pf_tiled_full (d : tf_dataset) : val := vres VB (pf_tiled_full d).
+Definition run_tile_array_py M R C ro co th tw pad : val :=
+  vres vz_list2 (get_tile_array_py M R C ro co th tw pad).
+Definition run_is_tiled a b c : val := VB (is_tiled_image a b c).
+Definition run_cut_all_nd S M R C th tw pad : val :=
+  VL (map (fun t => VL [vpairz (fst t); vres vz_list3 (snd t)]) (cut_all_nd S M R C th tw pad)).
+
+(* utils.are_plane_positions_tiled_full for ALL integer tile sizes: Python's
+   range(1, m + 1, step) raises ValueError for step 0 and counts DOWN from 1
+   for a negative step (non-empty only when m + 1 < 1) *)
+Definition py_range1 (m step : Z) : list Z :=
+  if 0 <? step then range1 m step
+  else if m <? 0 then map (fun k => 1 + k * step) (zrange (1 + (- m - 1) / (- step)))
+  else [].
+Definition are_tiled_full_dom (ps : list (Z * Z)) (th tw : Z) : res bool :=
+  if (th =? 0) || (tw =? 0) then Err "ValueError"
+  else
+    let '(max_r, max_c) := scan_max ps (-1) (-1) in
+    let e := flat_map (fun r => map (fun c => (r, c)) (py_range1 max_c tw)) (py_range1 max_r th) in
+    Ok (if negb (Nat.eqb (List.length e) (List.length ps)) then false else zip_all_eq e ps).
+Definition run_tiled_full_dom ps th tw : val := vres VB (are_tiled_full_dom ps th tw).
